@@ -1,0 +1,169 @@
+//! Verification facade (cargo feature `verif`, off by default).
+//!
+//! Thin wrappers that expose the crate-private policy pipeline (readers, comparison, update
+//! serialisation, evaluation) to an external runtime-monitoring harness in terms of plain strings.
+//! Nothing here is used by the agent itself and no existing code path is changed.
+#![allow(missing_docs, clippy::missing_errors_doc, clippy::type_complexity)]
+
+use std::str::from_utf8;
+
+use bgpfu::RpslEvaluator;
+use ip::{concrete::PrefixRange, Afi, Ipv4, Ipv6};
+use netconf::message::{ReadError, ReadXml, WriteXml};
+use quick_xml::{events::Event, NsReader, Writer};
+
+use super::{Candidate, Evaluate, Evaluated, Installed, Load, Name, Policies, Ranges};
+
+/// A prefix range rendered as `<prefix>,<lower>,<upper>` (the `FromStr` form of [`PrefixRange`]).
+pub type RangeStr = String;
+
+/// `(policy name, filter expression, Some((ipv4 ranges, ipv6 ranges)) | None = evaluation failed)`
+pub type EvaluatedItem = (String, String, Option<(Vec<RangeStr>, Vec<RangeStr>)>);
+
+fn read_data<T>(data_xml: &str) -> Result<Policies<T>, ReadError>
+where
+    Policies<T>: ReadXml,
+{
+    // same reader configuration as `ServerMsg::from_xml`; `data_xml` is the `<data>` element of a
+    // `get-config` reply, which `DataReply` hands to the reader positioned after its start tag.
+    let mut reader = NsReader::from_str(data_xml);
+    _ = reader.trim_text(true);
+    loop {
+        match reader.read_resolved_event()? {
+            (_, Event::Start(tag)) => break Policies::<T>::read_xml(&mut reader, &tag),
+            (_, Event::Comment(_) | Event::Decl(_)) => continue,
+            (_, event) => break Err(ReadError::UnexpectedXmlEvent(event.into_owned())),
+        }
+    }
+}
+
+fn render<A: Afi>(ranges: &Ranges<A>) -> Vec<RangeStr> {
+    let mut out: Vec<_> = ranges
+        .iter()
+        .map(|range| format!("{},{},{}", range.prefix(), range.lower(), range.upper()))
+        .collect();
+    out.sort();
+    out
+}
+
+fn parse<A: Afi>(ranges: &[RangeStr]) -> Result<Ranges<A>, String> {
+    ranges
+        .iter()
+        .map(|range| {
+            range
+                .parse::<PrefixRange<A>>()
+                .map_err(|err| format!("bad range '{range}': {err}"))
+        })
+        .collect()
+}
+
+/// Run the candidate (running configuration) reader over a `<data>` element.
+pub fn read_candidates(data_xml: &str) -> Result<Vec<(String, String)>, String> {
+    read_data::<Candidate>(data_xml)
+        .map(|policies| {
+            let mut out: Vec<_> = policies
+                .map
+                .iter()
+                .map(|(name, candidate)| (name.to_string(), candidate.filter_expr.to_string()))
+                .collect();
+            out.sort();
+            out
+        })
+        .map_err(|err| format!("{err:?}"))
+}
+
+/// Run the installed (ephemeral configuration) reader over a `<data>` element.
+pub fn read_installed(
+    data_xml: &str,
+) -> Result<Vec<(String, Vec<RangeStr>, Vec<RangeStr>)>, String> {
+    read_data::<Installed>(data_xml)
+        .map(|policies| {
+            let mut out: Vec<_> = policies
+                .map
+                .iter()
+                .map(|(name, installed)| {
+                    (
+                        name.to_string(),
+                        render(&installed.ipv4),
+                        render(&installed.ipv6),
+                    )
+                })
+                .collect();
+            out.sort();
+            out
+        })
+        .map_err(|err| format!("{err:?}"))
+}
+
+fn build_evaluated(evaluated: &[EvaluatedItem]) -> Result<Policies<Evaluated>, String> {
+    let map = evaluated
+        .iter()
+        .map(|(name, expr, ranges)| {
+            let filter_expr = expr
+                .parse()
+                .map_err(|err| format!("bad filter expression '{expr}': {err}"))?;
+            let ranges = ranges
+                .as_ref()
+                .map(|(ipv4, ipv6)| Ok::<_, String>((parse::<Ipv4>(ipv4)?, parse::<Ipv6>(ipv6)?)))
+                .transpose()?;
+            Ok((
+                Name::new(name),
+                Evaluated {
+                    filter_expr,
+                    ranges,
+                },
+            ))
+        })
+        .collect::<Result<_, String>>()?;
+    Ok(Policies { map })
+}
+
+/// The agent's pure update pipeline: installed reader -> `compare` -> `Update::write_xml`.
+///
+/// Returns one `<configuration>` payload per update, in the order the agent would send them.
+pub fn plan(installed_data_xml: &str, evaluated: &[EvaluatedItem]) -> Result<Vec<String>, String> {
+    let installed =
+        read_data::<Installed>(installed_data_xml).map_err(|err| format!("{err:?}"))?;
+    let evaluated = build_evaluated(evaluated)?;
+    evaluated
+        .compare(&installed)
+        .updates()
+        .map(|update| {
+            let mut buf = Vec::new();
+            update
+                .write_xml(&mut Writer::new(&mut buf))
+                .map_err(|err| format!("{err:?}"))?;
+            from_utf8(&buf)
+                .map(ToString::to_string)
+                .map_err(|err| format!("{err:?}"))
+        })
+        .collect()
+}
+
+/// The agent's evaluation step: candidate reader -> `Policies::<Candidate>::evaluate` on one
+/// evaluator connected to `host:port`.
+pub fn evaluate(
+    candidates_data_xml: &str,
+    host: &str,
+    port: u16,
+) -> Result<Vec<EvaluatedItem>, String> {
+    let candidates =
+        read_data::<Candidate>(candidates_data_xml).map_err(|err| format!("{err:?}"))?;
+    let mut evaluator = RpslEvaluator::new(host, port).map_err(|err| format!("{err:?}"))?;
+    let evaluated = candidates.evaluate(&mut evaluator);
+    let mut out: Vec<_> = evaluated
+        .map
+        .iter()
+        .map(|(name, item)| {
+            (
+                name.to_string(),
+                item.filter_expr.to_string(),
+                item.ranges
+                    .as_ref()
+                    .map(|(ipv4, ipv6)| (render(ipv4), render(ipv6))),
+            )
+        })
+        .collect();
+    out.sort();
+    Ok(out)
+}
